@@ -530,7 +530,7 @@ pub fn drive_bulk(seed: u64, tier: &str, out: &mut Out) {
         for &n in &sizes {
             k += 1;
             let big = n >= 2000;
-            if big && rep > 0 && tier != "thorough" {
+            if big && rep > 0 {
                 continue;
             }
             let ic = 1 + (k % 4) as u8;
